@@ -169,6 +169,56 @@ theorem loadWith_no_internal (sp : Splitter) (hsp : ∀ x, ∃ s, sp x = .ok s) 
       · exact hfin _ _ _
     · simp
 
+/-- the weaker contract (no claim about empty parts) -/
+def SplitCat (sp : Splitter) : Prop :=
+  ∀ d s, sp d = .ok s → s.header ++ s.parts.flatten ++ s.footer = d ∧ s.parts.length = s.reducible.length
+
+theorem loadWith_cat (sp : Splitter) (hsp : SplitCat sp) (d : Bytes) (t : Testcase)
+    (h : loadWith sp d = .ok t) : t.content = d ∧ t.WF := by
+  rw [loadWith_spec] at h
+  simp only at h
+  have hfl := Lines.splitLines_flatten d
+  generalize Lines.splitLines d = ls at h hfl
+  have htd := flatten_takeWhile_dropWhile (fun l => !mentionsAny l) ls
+  cases hdw : ls.dropWhile (fun l => !mentionsAny l) with
+  | nil =>
+    rw [hdw] at h
+    simp only at h
+    cases hs : sp ls.flatten with
+    | error e => simp [hs, finish] at h
+    | ok s =>
+      simp only [hs, finish, Except.ok.injEq] at h
+      subst h
+      obtain ⟨h1, h3⟩ := hsp _ _ hs
+      refine ⟨?_, h3⟩
+      simp only [Testcase.content, mk, List.nil_append, List.append_nil]
+      rw [h1, hfl]
+  | cons m rest =>
+    rw [hdw] at h
+    simp only at h
+    by_cases hb : hasSub DDBEGIN m = true
+    · simp only [hb, if_true] at h
+      have htd2 := flatten_takeWhile_dropWhile (fun l => !hasSub DDEND l) rest
+      cases hdw2 : rest.dropWhile (fun l => !hasSub DDEND l) with
+      | nil => simp [hdw2] at h
+      | cons e post =>
+        rw [hdw2] at h
+        simp only at h
+        cases hs : sp (rest.takeWhile (fun l => !hasSub DDEND l)).flatten with
+        | error e => simp [hs, finish] at h
+        | ok s =>
+          simp only [hs, finish, Except.ok.injEq] at h
+          subst h
+          obtain ⟨h1, h3⟩ := hsp _ _ hs
+          refine ⟨?_, h3⟩
+          simp only [Testcase.content, mk]
+          rw [hdw] at htd
+          rw [hdw2] at htd2
+          simp only [List.flatten_cons] at htd htd2
+          rw [← hfl, ← htd, ← htd2, ← h1]
+          simp only [List.append_assoc]
+    · simp [hb] at h
+
 /-! ### the three simple splitters -/
 
 theorem splitLine_ok : SplitOK splitLine := by
